@@ -1,5 +1,6 @@
 """C14 — process-spawning checks follow the documented decision table."""
 import os, re
+import json
 import common as C
 
 LEVEL = "proof"
@@ -136,6 +137,24 @@ def run(res, ctx):
                 if got != exp:
                     res.violation("process-spawning findings differ from the documented decision table",
                                   {"config": cfgname, "program": src, "expected": sorted(exp), "got": sorted(got), "meta": meta})
+        # B609 looks at the shell / subprocess lists only when BOTH are configured; a settings section naming one of them leaves it silent, it does not raise
+        # (found by tools/mutation: `'shell' in config and 'subprocess' in config` mutated to `or` survived).  Only B609 is selected: B602-B607 index the
+        # lists unconditionally and do raise on such a section (configuration validation, not this property).
+        import yaml
+        wild = [b"import os, subprocess\nos.system('tar xf a.tar *')\n", b"import subprocess\nsubprocess.Popen('chown root: *', shell=True)\n"]
+        for part in ({"subprocess": ["subprocess.Popen"]}, {"shell": ["os.system"]}, {"no_shell": []}):
+            cf = scratch.fresh("partial.yaml", yaml.safe_dump({"shell_injection": part}).encode())
+            realp = C.batch_real_scan(scratch, wild, config_file=cf, profile={"include": {"B609"}, "exclude": set()})
+            modelp = d.ask_many([dict(C.scan_request(s, plugin_cfg={"shell_injection": part}), profile={"include": ["B609"], "exclude": []}) for s in wild]) if d is not None else None
+            for i, s in enumerate(wild):
+                res.case(("b609-partial", json.dumps(part), s), True)
+                if realp[i]["errors"] or realp[i]["findings"]:
+                    res.violation("B609 with only one of the shell / subprocess lists configured reports or raises",
+                                  {"program": s.decode(), "settings": part, "findings": [list(f) for f in realp[i]["findings"]], "errors": realp[i]["errors"]})
+                if modelp is not None and "error" not in modelp[i]:
+                    diff = C.compare_scan(realp[i], modelp[i], C.blacklist_ids())
+                    if diff:
+                        res.break_("correspondence", {"program": s.decode(), "settings": part, "diff": diff})
     finally:
         scratch.close()
         if d is not None:
